@@ -93,4 +93,6 @@ class DataLoader:
         X_batch = self.X[start:end]
         y_batch = self.y[start:end]
         
+        if self.transform is None:
+            return X_batch, y_batch
         return self.transform(self, X_batch, y_batch)
